@@ -32,6 +32,10 @@ def hand_programs():
     add("decl-forms", prog([decl("A", num(1)), decl(["A2", "B2", "C2"], lst()), decl("K", s("t"), const=True), decl("D", dct([], [])), decl("E", dct(["k1", "k2"], [num(1), lst(num(2))]))]))
     add("expr-precedence-braced", prog([ex(bin_("add", bin_("mul", A, num(2)), bin_("sub", B, num(1)))), ex(bin_("or", bin_("and", bin_("gt", A, num(1)), bin_("le", B, num(2))), bin_("xeq", A, B))),
                                        ex(bin_("neq", bin_("mod", A, num(2)), bin_("idiv", B, num(3)))), ex(bin_("xneq", A, NULL)), ex(bin_("ge", A, bin_("div", B, num(2)))), ex(bin_("lt", A, B)), ex(bin_("eq", A, B))]))
+    add("comparisons-plain-operands", prog([ex(bin_(op, A, num(1))) for op in ("eq", "neq", "gt", "lt", "ge", "le", "xeq", "xneq")] +
+                                           [ex(bin_(op, num(2), B)) for op in ("eq", "neq", "gt", "lt", "ge", "le")] +
+                                           [if_([bin_("neq", A, num(1)), bin_("and", bin_("le", A, B), bin_("or", var("X1"), var("Y1")))], [[mark("a")], [mark("b")]]),
+                                            while_(bin_("neq", idx(A, num(1)), s("t")), [BREAK]), ex(bin_("neq", mem(A, "p"), call("F")))]))
     add("member-index-chains", prog([ex(idx(idx(A, num(1)), s("k"))), ex(idx(A, bin_("add", B, num(1)))), ex(mem(mem(A, "p"), "q")), ex(mem(idx(A, num(2)), "p")), ex(idx(mem(A, "p"), var("I"))),
                                      ex(asg(idx(A, num(1)), num(5))), ex(asg(mem(A, "p"), num(6))), ex(asg(idx(mem(A, "p"), s("k")), lst(num(1))))]))
     add("calls", prog([ex(call("F")), ex(call("F", num(1), s("x"), A)), ex(call("F", call("G", num(1)), y="R")), decl("X", call("F", lst(num(1), num(2)), dct(["a"], [num(1)]))),
@@ -48,13 +52,35 @@ def hand_programs():
                          throw("@exc", s("m")), throw("E1", s("m"), num(2), A)]))
     add("nested-functions-and-handlers", prog([disp(call("F", num(1)))], funcs=[func("F", ["X"], [if_([var("X")], [[ret(num(1))]]), ret(call("G"))], [catch("@exc", [mark("h1")]), catch("E2", [ret(num(2))])]),
                                                                                  func("G", [], [throw("E2", s("x"))])], classes=excfam.CLASSES))
+    # which 如果 does a 再如 / 否则 belong to?  the one at ITS OWN indentation - an inner statement that ends a branch block
+    # (an inner 如果 without / with its own 否则, or a loop whose body ends with one) never takes it
+    X, Y, Z = var("X"), var("Y"), var("Z")
+    inners = {
+        "if": lambda: [if_([Y], [[mark("i1")]])],
+        "ifelse": lambda: [if_([Y], [[mark("i1")]], [mark("i2")])],
+        "ifelif": lambda: [if_([Y, Z], [[mark("i1")], [mark("i3")]])],
+        "while-if": lambda: [while_(Y, [if_([Z], [[BREAK]])])],
+        "iter-if": lambda: [iter_(["V"], Y, [mark("b"), if_([Z], [[CONT]])])],
+        "if-if": lambda: [if_([Y], [[mark("i0"), if_([Z], [[mark("i1")]])]])],
+    }
+    for iname, mk in inners.items():
+        for arm in (1, 2):
+            for cont in ("elif+else", "else", "elif"):
+                conds = [X] + ([A] if arm == 2 or cont != "else" else [])
+                if arm == 2 and cont != "else": conds = [X, A, B]
+                blocks = [[mark("o%d" % (j + 1))] for j in range(len(conds))]
+                blocks[arm - 1] = [mark("o%d" % arm)] + mk()
+                els = [mark("oe")] if cont != "elif" else None
+                if arm == len(conds) and els is None: continue      # nothing follows the inner statement at the outer level
+                add("nest-%s-arm%d-%s" % (iname, arm, cont), prog([if_(conds, blocks, els), mark("after")]))
+                add("nest-fn-%s-arm%d-%s" % (iname, arm, cont), prog([ex(call("F"))], funcs=[func("F", [], [if_(conds, blocks, els), ret(num(1))])]))
     add("strings-and-lists", prog([decl("L", lst(s("a b"), s(""), lst(lst(num(1)), lst()), dct(["x"], [dct(["y"], [num(1)])]))), disp(s("含，标点：和、符号！"), num(-5), num(0))]))
     return P
 
 
 def family(tier, rnd):
     P = hand_programs()
-    P += c02.special_programs()
+    P += [p for p in c02.special_programs() if not p["tag"].startswith(("elseif-cond", "elseif3-cond", "if-cond", "while-cond-later"))]
     P += [p for p in c06.scoping_programs(tier, rnd) if p["tag"] in ("nested-if-while", "recursion-own-locals", "handled-exception-locals-gone", "yield-const", "program-input-const", "loop-var-gone")]
     P += c07.object_programs()[:6]
     c8 = c08.family("quick", rnd)
